@@ -40,6 +40,10 @@ def field_id(coords):
     return (len(c), core.h64(c))
 
 
+class ConformanceMiss(Exception):
+    """the replayed search asked something the real search never asked"""
+
+
 class World:
     """excess(F, H) strictly decreasing in H with root h0(F); never exactly 0 at the height bounds."""
 
@@ -54,7 +58,8 @@ class World:
         self._roots = spec.get("roots")  # dict "k:c" -> h0   (synthetic fields)
         self._table = None
         if self.kind == "trace":
-            self._table = {(q[0], round(q[1], 9)): q[2] for q in spec["table"]}
+            # recorded real-physics answers: (field key, height) -> (max EFT, min EFT)
+            self._table = {(q[0], round(q[1], 9)): (q[2], q[3]) for q in spec["table"]}
 
     def root(self, coords) -> float:
         if self.kind == "roots":
@@ -69,18 +74,24 @@ class World:
 
     def excess(self, coords, h: float) -> float:
         if self.kind == "trace":
-            key = (field_key(coords), round(h, 9))
-            if key not in self._table:
-                raise core.HarnessError(f"conformance: query not in recorded trace: nbh={len(coords)} H={h}")
-            return self._table[key]
+            mx, mn = self._lookup(coords, h)
+            return max(mx - self.max_allow, self.min_allow - mn)
         h0 = self.root(coords)
         if self.shape == "linear":
             return self.slope * (h0 - h)
         # hyperbolic: same root, same sign structure, non-linear so that brentq iterates
         return self.slope * 97.5 * (h0 / h - 1.0)
 
+    def _lookup(self, coords, h):
+        key = (field_key(coords), round(h, 9))
+        if key not in self._table:
+            raise ConformanceMiss(f"query not in the recorded trace: nbh={len(coords)} H={h!r}")
+        return self._table[key]
+
     def answer(self, coords, h: float):
         """(max EFT, min EFT) with excess e on the binding side and e-0.5 on the other"""
+        if self.kind == "trace":
+            return self._lookup(coords, h)
         e = self.excess(coords, h)
         if self.side == "max":
             mx, mn = self.max_allow + e, self.min_allow - (e - 0.5)
@@ -175,6 +186,11 @@ def install():
             self.dTb = [0.0, 0.0]
             return max(self.hp_eft), min(self.hp_eft)
 
+    _SAVED.update({
+        (ghx, "calc_g_func_for_multiple_lengths"): ghx.calc_g_func_for_multiple_lengths, (ghx, "get_bhe_object"): ghx.get_bhe_object,
+        (ghx, "RadialNumericalBH"): ghx.RadialNumericalBH, (ghx, "HybridLoad"): ghx.HybridLoad,
+        (sr, "calc_g_func_for_multiple_lengths"): sr.calc_g_func_for_multiple_lengths, (sr, "GHE"): sr.GHE,
+    })
     ghx.calc_g_func_for_multiple_lengths = fake_gfunc
     ghx.get_bhe_object = fake_bhe
     ghx.RadialNumericalBH = FakeRadial
@@ -182,6 +198,18 @@ def install():
     sr.calc_g_func_for_multiple_lengths = fake_gfunc
     sr.GHE = WorldGHE
     _installed = True
+
+
+_SAVED = {}
+
+
+def uninstall():
+    """put the real physics back (engine B alternates real runs and replays in one process)"""
+    global _installed
+    for (mod, name), obj in _SAVED.items():
+        setattr(mod, name, obj)
+    _SAVED.clear()
+    _installed = False
 
 
 def begin(world: World):
